@@ -17,6 +17,8 @@ func init() {
 
 func runC03(c *core.Ctx, o Options) {
 	integrityRules(c)
+	// V6 (premise): the framing values are the wire bytes — KeyValue.FromBytes passes them to the value unmodified
+	checkKeyValuePlain(c, "V6")
 	c.RuleMin = map[string]int{"V1": 3, "V2": 2, "V3": 1, "V4": 3, "V5": 3, "V6": 4, "V7": 2, "V8": 1}
 	c.MinObl = 12
 }
